@@ -532,7 +532,12 @@ static void map_pass(const plan_t *p)
             long mn = 1000000, mx = -1000000;
             if (m->len >= MAXLEN - 2) { SPIF_OBJ_DEL(kk); SPIF_OBJ_DEL(vv); continue; }
             for (int q = 0; q < m->len; q++) { if (m->key[q] < mn) mn = m->key[q]; if (m->key[q] > mx) mx = m->key[q]; }
-            if (k[3] == 0) b = SPIF_MAP_SET(mp, kk, vv);
+            int own = (o->a[2] == 2 && j >= 0 && k[3] == 0);
+            if (own) {
+                /* m[k] = m[k]: the value handed in is the map's own object for that key (get() returns it, not a copy) */
+                b = SPIF_MAP_SET(mp, kk, SPIF_MAP_GET(mp, kk));
+                probe_hit("set_own_value");
+            } else if (k[3] == 0) b = SPIF_MAP_SET(mp, kk, vv);
             else {
                 spif_objpair_t pr = spif_objpair_new_from_both(SPIF_OBJ(kk), SPIF_OBJ(vv));
                 b = SPIF_MAP_SET(mp, pr, (spif_obj_t)NULL);
@@ -540,11 +545,11 @@ static void map_pass(const plan_t *p)
                 probe_hit("set_via_pair");
             }
             if ((b ? 1 : 0) != (j >= 0)) FAILM("set-return", "set(key %ld) returned %d but the key was %s", key, (int)b, j >= 0 ? "already present (must report replacement)" : "new");
-            if (j >= 0) { m->val[j] = val; probe_hit("overwrite_existing"); }
+            if (j >= 0) { if (!own) m->val[j] = val; probe_hit("overwrite_existing"); }
             else { for (at = 0; at < m->len && m->key[at] < key; at++); m_ins(m, at, kk->root, key, val); }
             /* ownership: the map must hold its own copies -- the caller's objects must still be the caller's */
             if (!vobj_is_live_serial(kser) || !vobj_is_live_serial(vser)) FAILI("caller-object-freed", "set() deleted the caller's key or value object");
-            if (o->a[2]) { kk->key = 7777; vv->key = 8888; probe_hit("caller_key_mutated_after_set"); }
+            if (o->a[2] == 1) { kk->key = 7777; vv->key = 8888; probe_hit("caller_key_mutated_after_set"); }
             SPIF_OBJ_DEL(kk); SPIF_OBJ_DEL(vv);
         } else if (!strcmp(k, "remove")) {
             vobj_t probe = vobj_new(o->a[1]);
@@ -677,7 +682,7 @@ static void gen_map(plan_t *p, rng_t *r)
         int s = ex[1] && rng_chance(r, 1, 2) ? 1 : 0, k = (int)rng_below(r, 100);
         long key = (long)rng_below(r, (uint32_t)krange);
         if (!ex[s]) { plan_op(p, 0, "new", 1, (long)s); ex[s] = 1; continue; }
-        if (k < 40) plan_op(p, 0, rng_chance(r, 1, 6) ? "set_pair" : "set", 3, (long)s, key, (long)rng_chance(r, 1, 2));
+        if (k < 40) { int pair = rng_chance(r, 1, 6); plan_op(p, 0, pair ? "set_pair" : "set", 3, (long)s, key, !pair && rng_chance(r, 1, 8) ? 2L : (long)rng_chance(r, 1, 2)); }
         else if (k < 62) plan_op(p, 0, "remove", 2, (long)s, key);
         else if (k < 70) plan_op(p, 0, "has_value", 2, (long)s, (long)rng_range(r, -1, 6));
         else if (k < 76) plan_op(p, 0, "keys", 2, (long)s, (long)rng_chance(r, 1, 3));
